@@ -23,7 +23,7 @@ var commonSched = []string{
 }
 
 var props = map[string]propSpec{
-	"C05": {Sched: true, Level: "model_checking",
+	"C05": {Sched: true, Race: true, Level: "model_checking",
 		Rule:        "every schedule of each closed harness (writers / streaming writer / pinger+reader / closer on one Conn over vpipe, both roles, compression off/on) within the stated deviation bounds; an execution is one evaluation; states = distinct happens-before trace keys; an outcome is distinct by (harness, order of messages on the wire, per-call error pattern, control frames) and non-trivial when at least two tasks' operations interleaved",
 		Assumptions: commonSched},
 	"C11": {Seq: true, Level: "model_checking",
@@ -53,6 +53,12 @@ var props = map[string]propSpec{
 			"transports are in-memory: library writes never block, reads return the scripted bytes; 5 s contexts are hang guards only",
 			"parameter names are compared case-sensitively and quoted-string parameter values are outside the alphabet",
 		}, commonSeq...)},
+	"C06": {Sched: true, Level: "model_checking",
+		Rule:        "schedule part: every schedule (within the stated preemption bound; all interleavings in the thorough tier) of Close(1000) against a reader that may be the one to receive the peer's echo (explicit Reader loop, CloseRead, none), a peer that echoes and optionally ends its transport, an optional pinger; and of {Close, CloseNow, Close, late CloseNow} call orders; both roles",
+		Assumptions: commonSched},
+	"C16": {Sched: true, Level: "model_checking",
+		Rule:        "every schedule (within the stated preemption bound) of writers / a streaming Writer / a pinger against a local Close (peer echo early, late, never), a peer-initiated Close, and error-triggered Close frames (protocol violation, read limit, CloseRead policy violation) on one Conn over vpipe, both roles; oracle on the outbound byte log: after the first Close frame no data frame, no second Close frame; an outcome is the opcode sequence on the wire",
+		Assumptions: commonSched},
 	"C17": {Seq: true, Level: "exploration",
 		Rule:        "every (length 0..4200, alignment 0..63, key) triple, plus every 2-split (len<=512) and 3-split (len<=96); a case is distinct by (impl,len,align,key[,split]) and non-trivial when len>0; outcome hash = hash of masked bytes and returned key",
 		Assumptions: []string{"arm64 assembly cannot be executed in this sandbox; only the Go and amd64 implementations are checked", "buffer contents are pseudo-random from VERIF_SEED; XOR is content independent"}},
